@@ -6,6 +6,7 @@ import (
 	"bytes"
 	"context"
 	"crypto/sha256"
+	"errors"
 	"fmt"
 	"io"
 	"math/rand"
@@ -133,6 +134,19 @@ func run(c *harness.Ctx, i int) {
 		if err := desync.Tar(context.Background(), &buf, desync.NewLocalFS(root, desync.LocalFSOptions{})); err != nil {
 			c.Violation("tar-failed", "Tar of a generated tree failed: %v", err)
 			return
+		}
+		if i%5 == 2 && buf.Len() > 0 {
+			// a destination that fails after k bytes (disk full, closed pipe), once or for good: Tar must not report success
+			k := rng.Intn(buf.Len())
+			if rng.Intn(2) == 0 {
+				k = buf.Len() - 1 - rng.Intn(min(buf.Len(), 400)) // inside the last goodbye table
+			}
+			fw := &failingWriter{at: k, transient: rng.Intn(2) == 0}
+			if ferr := desync.Tar(context.Background(), fw, desync.NewLocalFS(root, desync.LocalFSOptions{})); ferr == nil {
+				c.Violation("write-error-lost", "Tar reported success although a write to its destination failed at byte %d of %d (transient=%v)", k, buf.Len(), fw.transient)
+				return
+			}
+			c.Count("failing_destinations", 1)
 		}
 		if i%7 == 3 {
 			// files that change size between the lstat and the read (log files, /proc-like files): the archive is either
@@ -324,6 +338,23 @@ func run(c *harness.Ctx, i int) {
 	c.Sample(map[string]interface{}{"source": source, "entries": len(got), "archive_bytes": buf.Len(), "max_fanout": maxKids, "depth": depth, "specials_in_source": o.Specials})
 	_ = dsu.Tick
 	_ = os.Stat
+}
+
+// failingWriter fails the write that crosses offset at (only that one if transient).
+type failingWriter struct {
+	at        int
+	n         int
+	transient bool
+	failed    bool
+}
+
+func (f *failingWriter) Write(p []byte) (int, error) {
+	if f.n+len(p) > f.at && !(f.transient && f.failed) {
+		f.failed = true
+		return 0, errors.New("no space left on device (injected)")
+	}
+	f.n += len(p)
+	return len(p), nil
 }
 
 // unstableReader hands out files whose content is longer or shorter than the size recorded in the entry.
